@@ -748,6 +748,7 @@ package badger
 //@   assert[table-ends-between-keys] before call ReachedCapacity : !ret(SameKey#2)
 //@   assert[range-ends-between-keys] before call CompareKeys : !ret(SameKey#2) && arg1 == kr.right
 //@   assert[version-of-current] before call ParseTs : called(Value)
+//@   assert[new-key-adopted-only-after-the-boundary-tests] before call SafeCopy#1 : arg0 == lastKey && !ret(SameKey#2) && called(ReachedCapacity#1) && !ret(ReachedCapacity#1)
 //@   assert[kept-entry-written-as-read] before call Add : arg0 == builder && arg2 == vs && arg3 == vp.Len && !isExpired && !firstKeyHasDiscardSet
 //@   assert[stale-after-discard-marker] before call AddStaleKey#1 : arg0 == builder && arg2 == vs && arg3 == vp.Len && firstKeyHasDiscardSet
 //@   assert[stale-when-expired] before call AddStaleKey#2 : arg0 == builder && arg2 == vs && arg3 == vp.Len && isExpired
@@ -867,6 +868,8 @@ package badger
 //@   assert[writes-blocked-first] before call stopCompactions : called(prepareToDrop#1) && ret1(prepareToDrop#1) == nil
 //@   assert[memtables-under-lock] before call newMemTable : held(db.lock) && len(db.imm) == 0
 //@   assert[tree-then-value-log] before call dropAll : called(dropTree#1) && ret1(dropTree#1) == nil && arg0 == db.vlog
+//@   assert[caches-cleared-with-the-data] before return : result1 == nil ==> called(Clear#1) && called(Clear#2) && called(Clear#3)
+//@   assert[file-ids-restart-after-files-are-gone] before call Store : called(dropAll#1) && ret1(dropAll#1) == nil && arg1 == 1
 //@   assert[fresh-memtable-before-tree] before call dropTree : arg0 == db.lc && db.mt == ret0(newMemTable#1) && ret1(newMemTable#1) == nil
 
 //@ func (*levelsController).dropTree
@@ -1532,6 +1535,7 @@ package badger
 //@   props C16
 //@   light
 //@   assert[txn-entries-after-marker] before call fn#1 : lastCommit == 0 && arg1 == vptrs[i]
+//@   loop 1 invariant[pointers-aligned-with-entries] len(entries) == len(vptrs)
 //@   assert[marker-of-this-txn] before call fn#1 : ret1(ParseUint#1) == nil && ret0(ParseUint#1) == atloop(lastCommit)
 //@   assert[standalone-outside-txn] before call fn#2 : lastCommit == 0 && validEndOffset == read.recordOffset
 //@   assert[pointer-of-record] before call fn#2 : arg1.Fid == lf.fid && arg1.Offset == e.offset && arg1.Len == uint32(e.hlen + len(e.Key) + len(e.Value) + 4)
